@@ -718,3 +718,25 @@ func (c *Conn) VerifQueueBadFrame(kind int) {
 		c.queueControlFrame(&wire.MaxStreamDataFrame{StreamID: id, MaximumStreamData: 1 << 20})
 	}
 }
+
+// VerifCloseLocalAll records a local application close (closeLocal, as CloseWithError does before it waits)
+// on every live connection of the transport and returns how many there were. Called from a qlog callback on
+// the run-loop goroutine it reproduces, deterministically, an application that calls CloseWithError at the
+// very instant the handshake completes.
+func (t *Transport) VerifCloseLocalAll(code uint64) int {
+	t.mutex.Lock()
+	seen := map[*Conn]bool{}
+	for _, h := range t.handlers {
+		switch c := h.(type) {
+		case *Conn:
+			seen[c] = true
+		case *wrappedConn:
+			seen[c.Conn] = true
+		}
+	}
+	t.mutex.Unlock()
+	for c := range seen {
+		c.closeLocal(&qerr.ApplicationError{ErrorCode: qerr.ApplicationErrorCode(code), ErrorMessage: "bye"})
+	}
+	return len(seen)
+}
